@@ -77,12 +77,14 @@ class V1MPM(MessageProcessingModel[V1EncodingResult, TV1SecModel]):
         decoded, _ = decode(whole_msg, enforce_type=Sequence)
         _, _, pdu = decoded
 
+        msg = self.security_model.process_incoming_message(decoded, credentials)
+
         # Because PDUs are lazy, we need to trigger the readout of the PDU
         # value. Otherwise, any error-response is hidden, causing cryptic
-        # errors.
+        # errors. This must happen after the community and version have been
+        # verified by the security model.
         pdu.value
 
-        msg = self.security_model.process_incoming_message(decoded, credentials)
         return msg
 
 
